@@ -119,6 +119,24 @@ func runC13(c *Ctx) {
 	R.Rule("C13.R4", "map iteration order cannot reach the output: inside a range over a map on a sanitising path there is no destination write, no append to an ordered list and no assignment of a loop-dependent value to a variable that outlives the loop; only constant flags, break, and m[k] = append(m[k], v...) into a Fresh map consumed by any-match loops")
 	R.Rule("C13.R5", "no other source of nondeterminism on sanitising paths: no time, math/rand, os, sync, unsafe, reflect, goroutines, channels or select")
 	R.Assume(TrustGo, TrustTokenizer, "user callbacks (MatchingHandler, custom URL policy, RewriteSrc) are pure and goroutine-safe", "dependencies (x/net/html, douceur, regexp, net/url) are used through per-call values or documented goroutine-safe objects")
+	E, S := c13SharedWrites(c, "C13.R1", "concurrent Sanitize calls on one policy would race, and later calls see the change", false)
+
+	c13Init(c)
+	c13Globals(c)
+	c13MapOrder(c, E, S)
+	c13Nondeterminism(c, S)
+}
+
+// c13SharedWrites decides the no-shared-writes rule over the sanitising set.  With summary=true only violations are
+// recorded individually (plus one obligation for the whole set) — used by the properties that rely on the rule for a
+// different reason (C06: the bytes handed out are the caller's own; C14: per-call cost cannot grow with earlier calls).
+func c13SharedWrites(c *Ctx, rule, consequence string, summary bool) (*effects.Analysis, map[*ssa.Function]bool) {
+	R := c.R
+	okf := func(key, cons, pos, why string) {
+		if !summary {
+			R.OK(rule, key, cons, pos, why)
+		}
+	}
 	E, S := newEffects(c)
 	// css handlers and policy closures belong to the sanitising set by rule
 	for _, fn := range moduleFuncs(c.P) {
@@ -158,31 +176,31 @@ func runC13(c *Ctx) {
 			pos := c.P.Pos(e.Instr.Pos())
 			switch {
 			case e.Target.Fresh():
-				R.OK("C13.R1", key, cons, pos, "target is memory allocated during this call")
+				okf(key, cons, pos, "target is memory allocated during this call")
 			case e.Guarded != "":
-				R.OK("C13.R1", key, cons, pos, e.Guarded)
+				okf(key, cons, pos, e.Guarded)
 			case e.Kind == "call" && e.SharedCallee != nil && S[e.SharedCallee] && (e.ArgTarget.Fresh() || !e.ArgTarget.Shared && onlyWriterParam(fn, e.ArgTarget)):
-				R.OK("C13.R1", key, cons, pos, "the callee's own shared writes are judged at their root sites inside "+shortFn(e.SharedCallee))
+				okf(key, cons, pos, "the callee's own shared writes are judged at their root sites inside "+shortFn(e.SharedCallee))
 			case san != nil && isDestinationWrite(san, e.Instr):
-				R.OK("C13.R1", key, cons, pos, "the destination writer (the call's own output)")
+				okf(key, cons, pos, "the destination writer (the call's own output)")
 			case !e.Target.Shared && !entry[fn] && e.Target.Params != 0:
-				R.OK("C13.R1", key, cons, pos, "writes through "+e.Target.String()+": judged at each call site (callee summary)")
+				okf(key, cons, pos, "writes through "+e.Target.String()+": judged at each call site (callee summary)")
 			case !e.Target.Shared && entry[fn] && onlyWriterParam(fn, e.Target):
-				R.OK("C13.R1", key, cons, pos, "the caller-supplied destination")
+				okf(key, cons, pos, "the caller-supplied destination")
 			default:
-				R.Fail("C13.R1", key, cons, pos, "writes to memory that is "+e.Target.String()+" (policy, package state or caller-owned): concurrent Sanitize calls on one policy would race, and later calls see the change")
+				R.Fail(rule, key, cons, pos, "writes to memory that is "+e.Target.String()+" (policy, package state or caller-owned): "+consequence)
 			}
 		}
 	}
 	R.Analysed["sanitising_functions"] = nFn
 	R.Analysed["write_effects_examined"] = nEff
-	R.Role("C13.R1", "functions in the sanitising set", nFn, 100)
-	R.Role("C13.R1", "write effects examined", nEff, 50)
+	R.Role(rule, "functions in the sanitising set", nFn, 100)
+	R.Role(rule, "write effects examined", nEff, 50)
 
-	c13Init(c)
-	c13Globals(c)
-	c13MapOrder(c, E, S)
-	c13Nondeterminism(c, S)
+	if summary {
+		R.OK(rule, "sanitising-set", fmt.Sprintf("%d functions reachable from the Sanitize* entry points, %d write effects", nFn, nEff), "", "every write effect not listed as a violation targets memory allocated during the call, the destination writer or a callee-judged site")
+	}
+	return E, S
 }
 
 func onlyWriterParam(fn *ssa.Function, t effects.Class) bool {
